@@ -1,0 +1,51 @@
+//go:build verif
+
+package cmd
+
+// Contracts for the verification machinery in /verif (build tag "verif").
+
+// ---- a failed renewal is reported as loss of leadership (C15) -------------------------------
+// ErrNotLeader is the lease store's definitive answer "somebody else holds the lease (or held
+// it in between)". Renew is implemented as Campaign, so renewing AGAIN after that answer could
+// silently re-acquire a lease: it is forbidden - the refusal must be reported instead.
+//   renewRefused  1 once a renewal of this instance has been answered "not the leader"
+//@ axiom lease_errors_exist: cluster.ErrNotLeader != nil
+
+//@ func cluster.Election.Renew(self, ctx) (err)
+//@   trusted abstract lease store (the Redis lease is decided in pkg/cluster)
+//@   ghost var renewRefused mathint
+//@   requires no_renewal_after_a_definitive_refusal [C15]: renewRefused == 0
+//@   modifies renewRefused
+//@   ensures refusal_is_remembered: (err == cluster.ErrNotLeader ==> renewRefused == 1) && (err != cluster.ErrNotLeader ==> renewRefused == old(renewRefused))
+//@ func cluster.Election.Campaign(self, ctx) (role, err)
+//@   trusted abstract lease store
+//@ func context.WithTimeout(parent, d) (ctx, cancel)
+//@   trusted library contract (allocates)
+//@ func util.Retry
+//@   inline
+
+//@ func SyncerCmd.clusterRenew
+//@   arith int
+//@   properties C15
+//@   requires nonnil: sc != nil && elect != nil
+//@   requires no_renewal_after_a_definitive_refusal: renewRefused == 0
+//@   modifies heap, renewRefused
+//@   ensures refusal_is_remembered: (result == cluster.ErrNotLeader ==> renewRefused == 1) && (result != cluster.ErrNotLeader ==> renewRefused == old(renewRefused))
+
+//@ func SyncerCmd.clusterCampaign
+//@   trusted here: campaign of a follower (not the renewal path)
+//@   modifies heap
+
+//@ func SyncerCmd.clusterTicker$1
+//@   loop 1:
+//@     invariant no_refusal_is_pending: renewRefused == 0
+
+//@ func SyncerCmd.clusterTicker
+//@   arith int
+//@   properties C15
+//@   replay cmd_clusterTicker
+//@   requires nonnil: sc != nil && elect != nil && wait != nil
+//@   requires fresh_role: renewRefused == 0
+//@   modifies heap, renewRefused
+//@   loop 1:
+//@     invariant no_refusal_is_pending: renewRefused == 0
